@@ -9,8 +9,8 @@ import traceback
 from . import facts
 
 VERIF = facts.VERIF
-EVID = os.path.join(VERIF, "evidence")
-OUT = os.path.join(VERIF, "out", "violations")
+EVID = os.environ.get("VERIF_EVIDENCE_DIR", os.path.join(VERIF, "evidence"))
+OUT = os.environ.get("VERIF_OUT_DIR", os.path.join(VERIF, "out", "violations"))
 KNOWN = os.path.join(VERIF, "known_findings.json")
 
 
